@@ -1344,8 +1344,22 @@ class _PieceBytesIO:
 
 ENT_KEYS = ['speed', 'Key With,Commas', 'spawn\udcffflags', 'a/b;c']          # hashed by Entity: chosen by index
 ENT_CTX = [('', ''), ('a\\', 'n'), ('x"', '"y'), ('1 2', '\t'), ('\n', ' ')]           # constant text around the symbolic slot
+ENT_KEY_CHARS = ['', 'A', ' ', '"', '\\', '\r', '\n', '\t', ',', '/', ';', '=', '[', '{', '}', '\x1b', '\udc80', '\xe9']
 ENT_TIMES = [-1, 1, 0, 7, 2 ** 31, -2 ** 40]
 ENT_SLOTS = ("val", "par", "tgt", "inp", "out", "key")
+
+
+_ENT_STUBS = []
+
+
+def _ent_stubs():
+    """Text stubs of C01/C06 (intern -> identity, BARE_DISALLOWED -> tuple, casefold fast path, exact float()/int() on
+    de-proxied text), installed in the entity-lump workers only."""
+    if _ENT_STUBS:
+        return
+    from vf.stubs.common import text_stubs
+    from vf.stubs.floatstub import stub_float, stub_int
+    _ENT_STUBS.extend(text_stubs() + stub_float() + stub_int() or ["done"])
 
 
 def _slot_char_ok(c):
@@ -1364,14 +1378,21 @@ def _run_entlump(s, ki, ti, comma, force, inst, ns, slot, ctx):
         assume(_slot_char_ok(c))
     comma, force, inst = cbool(comma), cbool(force), cbool(inst)
     pre, post = ENT_CTX[ctx]
-    f = {"key": pick(ENT_KEYS, ki), "val": "v 1", "out": "OnOpen", "tgt": "door_1", "inp": "Trigger", "par": "p"}
-    f[slot] = ('k' + pre + s + post) if slot == "key" else pre + s + post      # 'k': never one of the constant keys
+    f = {"key": pick(ENT_KEYS, ki) if slot != "key" else "", "val": "v 1", "out": "OnOpen", "tgt": "door_1", "inp": "Trigger", "par": "p"}
+    if slot == "key":
+        # Entity hashes its keys (any symbolic key is realised value by value): the slot character is chosen by symbolic
+        # index from ENT_KEY_CHARS instead (enumeration).  'k' in front: never one of the constant keys.
+        assume(ns == 0)
+        f["key"] = 'k' + pre + pick(ENT_KEY_CHARS, ki) + post
+    else:
+        f[slot] = pre + s + post
     if comma and slot in ("par", "tgt", "inp"):
         for c in s:
             assume(c != ',')        # the comma format cannot carry a comma in these fields (Output.parse docstring)
     times = pick(ENT_TIMES, ti)
     if SYMBOLIC:
         bm.BytesIO = _PieceBytesIO
+        _ent_stubs()
     vmf = VMF()
     vmf.spawn['classname'] = 'worldspawn'
     vmf.spawn['mapversion'] = '17'
